@@ -508,10 +508,17 @@ func errNotOverwritten(c *core.Ctx) {
 			if _, isCall := astx.Unparen(as.Rhs[0]).(*ast.CallExpr); !isCall {
 				return true
 			}
-			for _, l := range as.Lhs {
-				if o := isErrVar(l); o != nil {
-					ss = append(ss, site{as, o})
+			// only the error *result* of the call (its last value); `v, ok := asError(err)` yields a value whose
+			// validity the ok flag carries
+			if t := info.TypeOf(as.Rhs[0]); t != nil {
+				if tup, isTuple := t.(*types.Tuple); isTuple && tup.Len() > 0 {
+					if bt, isBasic := tup.At(tup.Len() - 1).Type().Underlying().(*types.Basic); isBasic && bt.Kind() == types.Bool {
+						return true
+					}
 				}
+			}
+			if o := isErrVar(as.Lhs[len(as.Lhs)-1]); o != nil {
+				ss = append(ss, site{as, o})
 			}
 			return true
 		})
